@@ -3028,7 +3028,11 @@ typedef struct {
 static void PrintSymbolList_AddOut(char* s, TListContext* pContext) {
     int AddVisibleLen = visible_strlen(s), AddLen = strlen(s);
 
-    if (AddVisibleLen + pContext->ZeilenrestVisibleLen > pContext->Width) {
+    /* flush only if there is something to flush: with a very narrow page
+       even the first entry is wider than the line */
+
+    if ((AddVisibleLen + pContext->ZeilenrestVisibleLen > pContext->Width)
+        && (pContext->ZeilenrestLen > 0)) {
         pContext->Zeilenrest.p_str[pContext->ZeilenrestLen - 1] = '\0';
         WrLstLine(pContext->Zeilenrest.p_str);
         as_dynstr_copy_c_str(&pContext->Zeilenrest, s);
